@@ -109,8 +109,12 @@ _CUT = {}
 for _cls in (off.CHKCiphertextFetcher, off.AskUntilSuccessMixin, off.LocalCiphertextReader, off.CHKUploadHelper, off.Helper,
              off.CHKCheckerAndUEBFetcher):
     _CUT[_cls.__name__] = X.cut_class(_cls, consts=X.FLOAT_CONSTS)
-for _cls in (up.RemoteEncryptedUploadable, up.AssistedUploader, up.EncryptAnUploadable, up._Accum):
-    _CUT[_cls.__name__] = X.cut_class(_cls)
+for _cls in (up.RemoteEncryptedUploadable, up.AssistedUploader, up.EncryptAnUploadable, getattr(up, "_Accum", None)):
+    if _cls is not None:
+        _CUT[_cls.__name__] = X.cut_class(_cls)
+# the chunk sizes are made symbolic through these class attributes
+if not hasattr(off.CHKCiphertextFetcher, "CHUNK_SIZE") or not hasattr(up.EncryptAnUploadable, "CHUNKSIZE"):
+    raise hlib.HarnessError("harness: CHKCiphertextFetcher.CHUNK_SIZE / EncryptAnUploadable.CHUNKSIZE no longer exist")
 # CHKUploader.start (the direct upload the helper path is compared with): @log_call_deferred (eliot action: clock, uuid) dropped
 up.CHKUploader.start = X.cut_fn(up.CHKUploader.start)
 hlib.encoded(up.CHKUploader.__init__, up.UploadResults, up.HelperUploadResults, up.UploadStatus)
@@ -1334,4 +1338,58 @@ def h_two_clients(size: int, CH: int, tjoin: int, p: int) -> bool:
         return "helper directory not clean after the last upload succeeded: %r" % (sorted(FS.files),)
     if [h for h in FS.open_handles() if "r" not in h.mode]:
         return "ciphertext file left open for writing"
+    return True
+
+
+# =====================================================================================================================
+# 6. whole flow when the file may already be in the grid
+# =====================================================================================================================
+
+def h_present_flow(u0: int, u1: int, e0: bool, e1: bool, e3: bool, e4: bool) -> bool:
+    """
+    pre: 0 <= u0 <= 2 and 0 <= u1 <= 2
+    post: _ == True
+    """
+    # real Uploader.upload -> AssistedUploader -> real Helper with the real checker over a symbolic grid (two servers, two
+    # share numbers); the file is the one whose UEB is on the grid (size 1000, k=1, N=NSH, segsize 1000)
+    _reset()
+    _build_grid([0, 0], [e0, e1, e3, e4], [u0, u1], 2)
+    helper = _grid_helper()
+    size = 1000
+    params = (1, 1, NSH, 1000)
+    CH = 600           # two ciphertext requests if an upload is needed (the transfer itself: resume_fetch / helper_upload_caps)
+    saved = _with_chunks(CH, CH)
+    try:
+        s = _client_upload(helper, "B", size, params)
+        _drain()
+        X.check_steering()
+    finally:
+        _restore_chunks(saved)
+    (caps, err) = _caps_of(s, "upload through the helper")
+    if err:
+        return err
+    model = _grid_model()
+    (present, err) = _present_model(model)
+    if err:
+        return err
+    if present:
+        h = real_hashutil.uri_extension_hash(_UEB[NSH])
+        if caps != ((KEY, h, 1, NSH, size), (SI1, h, 1, NSH, size)):
+            return "file found in the grid: caps are not (key | SI, hash of the UEB found, k, N, size): %r" % (caps,)
+        if helper.made or ENC.runs or FS.ops or s.file.nreads or AES.stream or NET.calls_of("B", "read_encrypted"):
+            return "file found in the grid but something was fetched / encrypted / encoded again"
+        ur = s.out[0]
+        if ur.get_pushed_shares() != 0 or ur.get_preexisting_shares() != len(model):
+            return "results: share counts"
+        return True
+    if len(helper.made) != 1 or len(ENC.runs) != 1 or not ENC.runs[0].completed:
+        return "file not completely in the grid (shares %r, N=%d): exactly one upload must happen" % (sorted(model), NSH)
+    r = _view_ok(ENC.runs[0], size, params, 0)
+    if r is not True:
+        return r
+    want = ENC.runs[0].token
+    if caps != ((KEY, want, 1, NSH, size), (SI1, want, 1, NSH, size)):
+        return "caps after the upload: %r" % (caps,)
+    if FS.files or helper._active_uploads:
+        return "helper not clean after the upload"
     return True
